@@ -306,6 +306,30 @@ func genUniverse(r *Rng, big bool) (*rgen, []rIndex) {
 			}
 		}
 	}
+	// every virtual name has at least one provider (otherwise most universes fail with "nothing provides")
+	for _, vt := range g.virts {
+		provided := false
+		for _, ix := range indexes {
+			for _, p := range ix.Pkgs {
+				for _, pr := range p.Provides {
+					if pr == vt || strings.HasPrefix(pr, vt+"=") {
+						provided = true
+					}
+				}
+			}
+		}
+		if !provided && r.Chance(90) {
+			ix := &indexes[0]
+			if len(ix.Pkgs) > 0 {
+				k := r.Intn(len(ix.Pkgs))
+				pr := vt
+				if r.Chance(60) {
+					pr = vt + "=" + Pick(r, g.vers[vt])
+				}
+				ix.Pkgs[k].Provides = append(ix.Pkgs[k].Provides, pr)
+			}
+		}
+	}
 	// shuffle package order inside each index
 	for i := range indexes {
 		pk := indexes[i].Pkgs
